@@ -33,6 +33,13 @@ CLAIMS = {
  'C16': dict(cat='other', ref='DESIGN 3 C16', technique='term identity between the abstractly evaluated constructors and the specification packing; guard-presence rule',
    text='EISAName::new stores exactly swap_bytes of the specified 5/5/5/4/4/4/4-bit packing (term identity under valid-character ranges) and emits it as an integer constant; Uuid::new produces the 16 bytes of the mixed-endian map and emits them as a Buffer; all refusing assertions/unwraps (length, dashes, hex digits) are present on the only path to the value.',
    note='char::to_digit modelled by its std contract; ASCII input assumed for char/byte index agreement.'),
+
+ 'C10': dict(cat='other', ref='DESIGN 3 C10', technique='abstract interpretation: emission shape of constructor(args) vs descriptor production; length-field vs size of following segments',
+   text='All 14 descriptor constructors (fixed memory, I/O, extended interrupt, register, word/dword/qword address space x memory/io/bus) and the template wrapper equal their ACPI 6.4 productions over the constructor parameters; independently each descriptor\'s length field equals the symbolic size of what follows it, so a length-walk tiles any template.',
+   note='Trusted: my production table; min <= max and range-size overflow are caller preconditions / C18.'),
+ 'C15': dict(cat='proof', ref='DESIGN 3 C15', technique='interval-write analysis with symbolic endpoints (Scope::raw), effect summaries (PackageBuilder), emission-shape identity (strings, usize/u64)',
+   text='Scope::raw resolves, for every prefix width m >= 1 symbolically, to ScopeOp ++ PkgLength(n-1) ++ path ++ children, identical to impl Aml for Scope; PackageBuilder::new/add_element keep (bytes = concatenated children, counter = count) and its emission equals Package\'s under that relation; &str/String and usize/u64 have identical shapes.',
+   note='copy_within/copy_from_slice/resize modelled as interval writes per the std contract.'),
 }
 NOT_YET = 'check not built yet (build in progress; design in DESIGN.md section 3)'
 
